@@ -616,15 +616,80 @@ fn fam_nonces(tag: &str, out: &mut Vec<Case>) {
     })));
 }
 
+// A minus its bit part: what remains is sum_k alpha_k * G'_k  (single commitment, known witness)
+fn alpha_part(st: &RangeStatement<P>, proof: &RistrettoRangeProof, offset_value: u64) -> Result<P, String> {
+    let bytes = proof.to_bytes();
+    let d = bytes[0] as usize;
+    let mut ab = [0u8; 32]; ab.copy_from_slice(&bytes[1 + 32 * d..33 + 32 * d]);
+    let a = curve25519_dalek::ristretto::CompressedRistretto(ab).decompress().ok_or("A does not decompress")?;
+    let n = st.generators.bit_length();
+    let g: Vec<P> = st.generators.gi_base_iter().take(n).cloned().collect();
+    let h: Vec<P> = st.generators.hi_base_iter().take(n).cloned().collect();
+    let mut acc = a;
+    for i in 0..n {
+        let bit = if i < 64 { (offset_value >> i) & 1 } else { 0 };
+        let al = Scalar::from(bit);
+        acc -= g[i] * al + h[i] * (al - Scalar::ONE);
+    }
+    Ok(acc)
+}
+
+fn fam_alpha(tag: &str, out: &mut Vec<Case>) {
+    // C13: the blinding components of A are distinct draws. With G'_2 = -G'_1 the blinding part of A is (alpha_1 - alpha_2) G'_1.
+    let id = format!("{}:nonces:alpha-distinct", tag);
+    out.push((id, Box::new(move || {
+        let mut setup = ChaCha12Rng::seed_from_u64(17);
+        for d in [2usize, 4] {
+            let mut pc = create_pedersen_gens_with_extension_degree(deg(d));
+            pc.g_base_vec[1] = -pc.g_base_vec[0]; pc.g_base_compressed_vec[1] = pc.g_base_vec[1].compress();
+            for k in 2..d { pc.g_base_vec[k] = RistrettoPoint::identity() + pc.g_base_vec[0] * Scalar::from(0u64); pc.g_base_compressed_vec[k] = pc.g_base_vec[k].compress(); }
+            if d > 2 { continue; }   // identity generators are refused by the transcript; only the degree-2 instance is usable
+            let params = RangeParameters::init(8, 1, pc).map_err(|e| format!("{:?}", e))?;
+            let r: Vec<Scalar> = (0..d).map(|_| Scalar::random(&mut setup)).collect();
+            let v = 77u64;
+            let c = params.pc_gens().commit(&Scalar::from(v), &r).map_err(|e| format!("{:?}", e))?;
+            let st = RangeStatement::init(params, vec![c], vec![None], None).map_err(|e| format!("{:?}", e))?;
+            let w = RangeWitness::init(vec![CommitmentOpening::new(v, r)]).map_err(|e| format!("{:?}", e))?;
+            for seed in [1u64, 2, 3] {
+                let mut prng = ChaCha12Rng::seed_from_u64(seed);
+                let proof = RangeProof::prove_with_rng(&mut Transcript::new(b"ctx"), &st, &w, &mut prng).map_err(|e| format!("{:?}", e))?;
+                if alpha_part(&st, &proof, v)? == RistrettoPoint::identity() { return Err("two blinding components of A are the same nonce (alpha_1 == alpha_2)".into()); }
+            }
+        }
+        Ok(())
+    })));
+    // C14: with a constant external RNG, two runs that differ only in a promise must not share the alpha nonces
+    let id = format!("{}:nonces:alpha-hedged-by-statement", tag);
+    out.push((id, Box::new(move || {
+        let mut setup = ChaCha12Rng::seed_from_u64(23);
+        let pc = create_pedersen_gens_with_extension_degree(deg(2));
+        let params = RangeParameters::init(8, 1, pc).map_err(|e| format!("{:?}", e))?;
+        let r: Vec<Scalar> = (0..2).map(|_| Scalar::random(&mut setup)).collect();
+        let v = 200u64;
+        let c = params.pc_gens().commit(&Scalar::from(v), &r).map_err(|e| format!("{:?}", e))?;
+        let w = RangeWitness::init(vec![CommitmentOpening::new(v, r)]).map_err(|e| format!("{:?}", e))?;
+        let run = |promise: Option<u64>| -> Result<P, String> {
+            let st = RangeStatement::init(params.clone(), vec![c], vec![promise], None).map_err(|e| format!("{:?}", e))?;
+            let mut bad = ConstRng(0x11);
+            let proof = RangeProof::prove_with_rng(&mut Transcript::new(b"ctx"), &st, &w, &mut bad).map_err(|e| format!("{:?}", e))?;
+            alpha_part(&st, &proof, v - promise.unwrap_or(0))
+        };
+        let (p0, p1, p2) = (run(None)?, run(Some(5))?, run(Some(6))?);
+        if p1 == p2 || p0 == p1 { return Err("with a constant external RNG two runs that differ only in a promise share the alpha nonces".into()); }
+        if run(Some(0))? != p0 { return Err("an absent promise and Some(0) give different alpha nonces under the same RNG".into()); }
+        Ok(())
+    })));
+}
+
 fn families(prop: &str) -> Vec<Case> {
     let mut v: Vec<Case> = vec![];
     match prop {
-        "C01" | "C12" => { fam_completeness(prop, &mut v); if prop == "C12" { fam_gens(prop, &mut v); } }
+        "C01" | "C12" => { if prop == "C12" { fam_gens(prop, &mut v); fam_batch(prop, &mut v); } fam_completeness(prop, &mut v); }
         "C02" | "C04" | "C05" => { fam_binding(prop, &mut v); fam_batch(prop, &mut v); if prop == "C05" { fam_panics(prop, &mut v); } if prop == "C02" { fam_modes(prop, &mut v); } fam_completeness(prop, &mut v); }
         "C03" | "C08" => { fam_batch(prop, &mut v); }
         "C06" | "C07" => { fam_prover(prop, &mut v); if prop == "C07" { fam_binding(prop, &mut v); } }
         "C09" | "C10" => { fam_modes(prop, &mut v); fam_completeness(prop, &mut v); fam_batch(prop, &mut v); }
-        "C13" | "C14" => { fam_nonces(prop, &mut v); }
+        "C13" | "C14" => { fam_nonces(prop, &mut v); fam_alpha(prop, &mut v); }
         "C11" => { fam_gens(prop, &mut v); }
         "C15" => { fam_codec(prop, &mut v); }
         "C16" => { fam_panics(prop, &mut v); fam_codec(prop, &mut v); fam_batch(prop, &mut v); }
